@@ -229,6 +229,15 @@ def check_decl(dc, st, tier, only=None):
                     st.violate('filter raises', '%s: filter() raised %r | %s' % (what, e, srcline), case, snip)
                     continue
                 st.inc('filters')
+                # the candidates as a one-shot iterator (a stream of records) instead of a list: nothing may get lost on the way
+                try:
+                    streamed = [ir.extract(x, dc.P, dc.pkts) for x in pm.filter(pat, iter(small), filter_with_regexp_first=True)]
+                except Exception as e:
+                    streamed = repr(e)
+                if streamed != with_rx:
+                    st.violate('filter over an iterator differs from filter over a list', '%s: filter() over iter(candidates) returns %s, over the list %d packets | %s' % (
+                        what, ('%d packets' % len(streamed)) if isinstance(streamed, list) else streamed, len(with_rx), srcline), case, snip)
+                    continue
                 if with_rx != without:
                     st.violate('filter differs with the pre-filter', '%s: filter() returns %d packets with the regexp pre-filter and %d without | %s' % (
                         what, len(with_rx), len(without), srcline), case, snip)
@@ -273,7 +282,7 @@ def run(tier):
                           'by expression/by callable/bytes marker (incl. a marker containing ".")/marker kept/regex kept/EOS; patterns = concrete packets parsed from the '
                           'corpus (metacharacter-valued first) x every subset of fixed fields; corpus = all strings up to the bound over the base alphabet and '
                           'over regex metacharacters (\\ ] ^ - . \\n [ $ * ( ) plus one metacharacter at every position of longer strings; '
-                          'ONE pattern object reused: all fields fixed one by one, relaxed to Any() one by one, fixed again (both directions), filter() with and without the pre-filter after every change; states = distinct (declaration, fixed subset, generated expression); threads: all schedules with <=%d preemption(s) of two threads '
+                          'the candidates also as a one-shot iterator; ONE pattern object reused: all fields fixed one by one, relaxed to Any() one by one, fixed again (both directions), filter() with and without the pre-filter after every change; states = distinct (declaration, fixed subset, generated expression); threads: all schedules with <=%d preemption(s) of two threads '
                           'that each derive the expression of their own pattern and apply it to a corpus (two pattern pairs), scheduling points = source '
                           'lines inside bisturi' % (2 if tier == 'quick' else 3, 1 if tier == 'quick' else 2),
                       {'patterns': st.n.get('patterns', 0), 'filter_comparisons': st.n.get('filters', 0), 'thread_schedules': st.n.get('thread_schedules', 0),
